@@ -240,7 +240,7 @@ class RDD:
         >>> sorted(rdd.glom().collect())
         [[1, 2], [3, 4]]
         """
-        return self.mapPartitions(lambda items: [list(items)])
+        return self.mapPartitions(lambda items: iter([list(items)]))
 
     def cartesian(self, other):
         """cartesian product of this RDD with ``other``
